@@ -79,6 +79,11 @@ def run(chk, prog):
         return
     E = new_trace[1]
     req = E[1][1]
+    kparent = [x for x in subterms(sc.init) if False]
+    ek = E[2][0]
+    okkey = is_call(ek, "fold_in") and len(ek[2]) == 2 and ek[2][1] == ("elem", sc.xs) and is_t(ek[2][0], "proj") and is_call(ek[2][0][1], "split")
+    chk.require(okkey, "KEY-LOOP", inst + "/edit-key", "a fresh key per leapfrog step", derived=show(ek)[:160], expected="fold_in(key', step seed) with the step seeds scanned over", where=where)
+    chk.require(E[2][2] == P("argdiffs"), "DELEG-ROLE", inst + "/edit-argdiffs", "argdiffs forwarded", derived=show(E[2][2])[:80], expected="argdiffs", where=where)
     chk.require(E[2][1] == t_in, "CARRY-THREAD", inst + "/edit-trace", "update applied to the carried trace", derived=show(E[2][1])[:200], expected="the carried trace slot", where=where)
     chk.require(sg[2][0] == ("attr", P("self"), "selection"), "DELEG-ROLE", inst + "/regrad-selection", "same selection", derived=show(sg[2][0]), expected="self.selection", where=where)
     x1 = req[2][0] if is_t(req, "ctor") and req[1] == "Update" and req[2] else None
@@ -110,7 +115,8 @@ def run(chk, prog):
     chk.require(cout[i_tr] == new_trace, "CARRY-THREAD", inst + "/trace-out", "trace slot", derived=show(cout[i_tr])[:200], expected="the updated trace", where=where)
     chk.require(cout[i_val] == mk_proj(sg, 0), "CARRY-THREAD", inst + "/values-out", "values slot", derived=show(cout[i_val])[:200], expected="values re-read from the updated trace", where=where)
     fresh = cout[i_grad] == g_new
-    chk.require(fresh, "CARRY-FRESH", inst, "gradient", derived=f"gradient slot returned as {show(cout[i_grad])[:160]}",
+    stale = cout[i_grad] == cin[i_grad]
+    chk.require(fresh, "CARRY-FRESH", inst, "gradient" if stale else f"gradient <- {show(cout[i_grad])[:80]}", derived=f"gradient slot returned as {show(cout[i_grad])[:160]}",
                 expected="the gradient recomputed at the new position (selection_gradient(new_trace)[1]); the carried slot is read by the next first half-kick", where=where)
     # ---- only selected values move: selection_gradient filters by the selection
     m_, sgfn = prog.func("selection_gradient", MOD)
@@ -125,6 +131,23 @@ def run(chk, prog):
     okass = len(ass) == 1 and is_call(ass[0][2][1], "tree_primal") and len(neg) >= 1 and mentions(ass[0][2][0], neg[0]) and mentions(ass[0][2][0], pos[0])
     chk.require(okass, "DELEG-ROLE", "selection_gradient/assess", "gradient of assess at the primal arguments",
                 derived=show(ass[0])[:300] if ass else "no assess call", expected="gen_fn.assess(selected choices merged with the complement, Diff.tree_primal(argdiffs))", where=chk.where(m_, sgfn))
+    # ---- grad_tree_unzip / grad_tree_zip partition the choices by differentiability and put them back together
+    for fname in ("grad_tree_unzip", "grad_tree_zip"):
+        mm_, gf_ = prog.func(fname, MOD)
+        evg = Evaluator(prog)
+        rg_ = evg.eval_fn(gf_, mm_)
+        if fname == "grad_tree_unzip":
+            t_ = rg_.ret
+            okz = is_t(t_, "tuple") and len(t_[1]) == 2 and all(is_t(x, "treemap") and x[2] == (P("tree"),) for x in t_[1])
+            if okz:
+                sg_ = ("call", ("global", "genjax._src.core.typing.static_check_supports_grad"), (("leaf", P("tree")),), ())
+                okz = t_[1][0][1] == ("phi", sg_, ("leaf", P("tree")), ("const", None)) and t_[1][1][1] == ("phi", ("un", "not", sg_), ("leaf", P("tree")), ("const", None))
+            chk.require(okz, "GRAD-PARTITION", "grad_tree_unzip", "differentiable leaves / the rest, complementary", derived=show(t_)[:260], expected="(v if supports_grad(v) else None, v if not supports_grad(v) else None)", where=f"{mm_.rel}:{gf_.lineno}")
+        else:
+            t_ = rg_.ret
+            a_, b_ = ("leaf", P("grad_tree")), ("leaf", P("nongrad_tree"))
+            okz = is_t(t_, "treemap") and t_[2] == (P("grad_tree"), P("nongrad_tree")) and t_[1] == ("phi", ("un", "not", ("is", a_, ("const", None))), a_, b_)
+            chk.require(okz, "GRAD-PARTITION", "grad_tree_zip", "takes the differentiable leaf when present", derived=show(t_)[:200], expected="v1 if v1 is not None else v2", where=f"{mm_.rel}:{gf_.lineno}")
     # ---- ALPHA
     fa = lin(alpha)
     fin_t = ("scanfinal", sid, i_tr)
